@@ -902,13 +902,13 @@ fn exec_real(case: &Value) -> RunResult {
     if (what == "timeout" || what == "limit") && took.as_secs() >= 10 {
         return res.violation("child-left-running", format!("real OS ({what}): run() returned after {:.1} s, i.e. only once the child ended by itself", took.as_secs_f64()));
     }
-    let child_pid: Option<i32> = std::fs::read_to_string(&marker).ok().and_then(|s| s.trim().parse().ok());
-    // whatever the outcome: the child must be gone
-    if let Some(pid) = child_pid
-        && realos::pid_alive(pid)
-    {
-        unsafe { libc::kill(pid, libc::SIGKILL) };
-        return res.violation("child-left-running", format!("real OS: helper pid {pid} still alive after naija returned ({what})"));
+    // whatever the outcome: nothing of the child may be left running (live members of the binary's
+    // process group at the moment it returned; the harness has killed them since)
+    if !run.leftover.is_empty() {
+        return res.violation("child-left-running", format!("real OS: {} process(es) of the command still alive after naija returned ({what})", run.leftover.len()));
+    }
+    if run.code == -9 {
+        return res.violation("no-progress", format!("real OS ({what}): naija did not finish within 90 s"));
     }
     let expect_err = match what {
         "limit" => Some("Process output limit exceeded"),
